@@ -375,7 +375,7 @@ func runC08(c *core.Ctx) error {
 	// (4) accepted inheritance projects
 	{
 		cfg := "AllOf_2.cfg"
-		body := "SPECIFICATION Spec\nCONSTANTS\n  N = 2\n  KeySet = {\"k1\", \"k2\"}\n  MaxList = 2\n  APs = {\"absent\", \"false\", \"true\"}\n  Nest = FALSE\n  RootChoice = FALSE\n  OptDefTypes = FALSE\nINVARIANTS Emit\nCHECK_DEADLOCK FALSE\n"
+		body := "SPECIFICATION Spec\nCONSTANTS\n  N = 2\n  KeySet = {\"k1\", \"k2\"}\n  MaxList = 2\n  APs = {\"absent\", \"false\", \"true\"}\n  Nest = FALSE\n  RootChoice = FALSE\n  OptDefTypes = FALSE\n  SelfReg = FALSE\nINVARIANTS Emit\nCHECK_DEADLOCK FALSE\n"
 		kv := map[string]string{"k1": "1", "k2": `"two"`, "k3": "true"}
 		n := 0
 		res, err := tlc.Run(tlc.Opts{Module: "AllOf", Cfg: cfg, Workers: 16, Timeout: 0, HeapGB: 16, Files: map[string][]byte{cfg: []byte(body)}, OnLine: func(l string) {
